@@ -221,6 +221,30 @@ func applyFault(root *jnode, path, fault string) bool {
 			return false
 		}
 		parent.kids[i] = &jnode{kind: "string", raw: `" "`}
+	case "esc-cut-1", "esc-cut-2", "esc-cut-3", "esc-cut-4", "esc-cut-5", "esc-cut-6":
+		// a ':'-delimited string (CPE, purl, "Type: name", SPDX ids) cut in front of its k-th delimiter with a dangling
+		// escape character at the end: "cpe:2.3:a:acme:widget:1.0:..." -> "cpe:2.3:a:acme:widget\\" for k = 5
+		if cur.kind != "string" {
+			return false
+		}
+		var v string
+		json.Unmarshal([]byte(cur.raw), &v)
+		k := int(fault[len(fault)-1] - '0')
+		pos := -1
+		for j := 0; j < len(v); j++ {
+			if v[j] == ':' {
+				k--
+				if k == 0 {
+					pos = j
+					break
+				}
+			}
+		}
+		if pos < 0 {
+			return false
+		}
+		b, _ := json.Marshal(v[:pos] + "\\")
+		parent.kids[i] = &jnode{kind: "string", raw: string(b)}
 	case "paren-only", "paren-unclosed":
 		// "Person: Jane (jane@acme.example)" -> "Person: (jane@acme.example)" / "Person: Jane (": the optional trailing
 		// group of a structured string with nothing in front of it, and a group that is opened and never closed
@@ -303,7 +327,9 @@ func richDoc() *sbom.Document {
 	lib.Suppliers = []*sbom.Person{{Name: "John Roe"}}
 	lib.Originators = []*sbom.Person{{Name: "Upstream Org", IsOrg: true}}
 	lib.Licenses = []string{"MIT"}
-	file := &sbom.Node{Id: "file", Type: sbom.Node_FILE, Name: "f.txt", Hashes: map[int32]string{2: "ee"}, Copyright: "c", LicenseConcluded: "MIT"}
+	file := &sbom.Node{Id: "file", Type: sbom.Node_FILE, Name: "f.txt", Hashes: map[int32]string{2: "ee"}, Copyright: "c", LicenseConcluded: "MIT",
+		// a component without version that has a CPE and a purl
+		Identifiers: map[int32]string{int32(sbom.SoftwareIdentifierType_CPE23): "cpe:2.3:a:acme:f:1.0:*:*:*:*:*:*:*", int32(sbom.SoftwareIdentifierType_PURL): "pkg:generic/acme/f@1.0"}}
 	d.NodeList.Nodes = []*sbom.Node{root, lib, file}
 	d.NodeList.RootElements = []string{"root"}
 	d.NodeList.Edges = []*sbom.Edge{{Type: sbom.Edge_contains, From: "root", To: []string{"lib"}}, {Type: sbom.Edge_contains, From: "lib", To: []string{"file"}},
